@@ -30,6 +30,8 @@ func main() {
 		cmdCheck(os.Args[2:])
 	case "list":
 		cmdList(os.Args[2:])
+	case "finalfields":
+		cmdFinal(os.Args[2:])
 	default:
 		fmt.Fprintln(os.Stderr, "unknown command", os.Args[1])
 		os.Exit(2)
@@ -43,6 +45,7 @@ func mustLoad(repo string) *World {
 		os.Exit(3)
 	}
 	w.registerStructs()
+	w.computeFinalFields()
 	return w
 }
 
